@@ -493,6 +493,18 @@ func (w *World) exec(l Line) (res string) {
 	case "query":
 		needColl()
 		return w.query(c, int(l.u64("q", 1)))
+	case "putddoc":
+		needColl()
+		return w.putDDoc(c, l)
+	case "delddoc":
+		needColl()
+		return w.delDDoc(c, l)
+	case "view":
+		needColl()
+		return w.view(c, l)
+	case "ddocs":
+		needColl()
+		return w.ddocs(c)
 	case "draw":
 		return fmt.Sprintf("r=ok cas=%d", rosmar.VerifHLCNow())
 	case "restart":
